@@ -199,6 +199,9 @@ enum Step {
     B(Option<i64>, Option<i64>),
     L,
     S,
+    /// `nth(k)` / `nth_back(k)`: std's defaults are k+1 calls of next / next_back
+    Nth(usize),
+    NthB(usize),
 }
 #[derive(Clone, Copy)]
 enum Ad {
@@ -265,6 +268,8 @@ fn parse_script(t: &[&str]) -> Script {
                 ["b", w, pl] => Step::B(opt_i64(w), opt_i64(pl)),
                 ["l"] => Step::L,
                 ["s"] => Step::S,
+                ["nth", k] => Step::Nth(num(k)),
+                ["nthb", k] => Step::NthB(num(k)),
                 _ => bad(&format!("istep `{s}`")),
             }
         })
@@ -278,7 +283,7 @@ fn parse_script(t: &[&str]) -> Script {
 /// pq's IterMut and IntoSortedIter).  Decided before anything is executed.
 fn script_ok(full: bool, sc: &Script) -> bool {
     let has = |f: fn(&Step) -> bool| sc.steps.iter().any(f);
-    let has_b = has(|s| matches!(s, Step::B(..)));
+    let has_b = has(|s| matches!(s, Step::B(..) | Step::NthB(_)));
     let has_l = has(|s| matches!(s, Step::L));
     let len_end = matches!(sc.end, End::Len(_));
     match sc.ad {
@@ -346,6 +351,8 @@ trait Drive {
     type Item: Yield;
     fn n(&mut self) -> Option<Self::Item>;
     fn b(&mut self) -> Option<Self::Item>;
+    fn nth(&mut self, k: usize) -> Option<Self::Item>;
+    fn nthb(&mut self, k: usize) -> Option<Self::Item>;
     fn l(&self) -> usize;
     fn s(&self) -> (usize, Option<usize>);
 }
@@ -367,6 +374,12 @@ where
     fn b(&mut self) -> Option<T::Item> {
         unreachable!("next_back not offered")
     }
+    fn nth(&mut self, k: usize) -> Option<T::Item> {
+        self.0.nth(k)
+    }
+    fn nthb(&mut self, _k: usize) -> Option<T::Item> {
+        unreachable!("nth_back not offered")
+    }
     fn l(&self) -> usize {
         unreachable!("len not offered")
     }
@@ -385,6 +398,12 @@ where
     fn b(&mut self) -> Option<T::Item> {
         unreachable!("next_back not offered")
     }
+    fn nth(&mut self, k: usize) -> Option<T::Item> {
+        self.0.nth(k)
+    }
+    fn nthb(&mut self, _k: usize) -> Option<T::Item> {
+        unreachable!("nth_back not offered")
+    }
     fn l(&self) -> usize {
         self.0.len()
     }
@@ -402,6 +421,12 @@ where
     }
     fn b(&mut self) -> Option<T::Item> {
         self.0.next_back()
+    }
+    fn nth(&mut self, k: usize) -> Option<T::Item> {
+        self.0.nth(k)
+    }
+    fn nthb(&mut self, k: usize) -> Option<T::Item> {
+        self.0.nth_back(k)
     }
     fn l(&self) -> usize {
         self.0.len()
@@ -464,6 +489,22 @@ fn run_steps<D: Drive>(d: &mut D, steps: &[Step], ctx: &Ctx, out: &mut String, b
                 sep(out);
                 match x {
                     Some(x) => x.emit(w, pl, ctx, out),
+                    None => out.push_str("e:-"),
+                }
+            }
+            Step::Nth(k) => {
+                let x = d.nth(k);
+                sep(out);
+                match x {
+                    Some(x) => x.emit(None, None, ctx, out),
+                    None => out.push_str("e:-"),
+                }
+            }
+            Step::NthB(k) => {
+                let x = d.nthb(k);
+                sep(out);
+                match x {
+                    Some(x) => x.emit(None, None, ctx, out),
                     None => out.push_str("e:-"),
                 }
             }
